@@ -66,7 +66,19 @@ def cm_case(kind, p, words, rng, named_type=None, mixed=False, info=None):
     else:
         root = '<xs:element name="r"><xs:complexType%s>%s</xs:complexType></xs:element>' % (mx, body)
         types = ""
-    doc = sc.document(root, types)
+    docs = [("u.xsd", G.U_XSD)]
+    if named_type == "include":
+        # the type (and the named groups it uses) live in an included document of the same target namespace
+        inc = ('<xs:schema xmlns:xs="%s" xmlns:t="urn:t" xmlns:u="urn:u" targetNamespace="urn:t" '
+               'elementFormDefault="qualified"><xs:import namespace="urn:u" schemaLocation="u.xsd"/>%s%s</xs:schema>'
+               % (G.XSD, types, "".join(sc.groups)))
+        sc.groups = []
+        doc = sc.document('<xs:include schemaLocation="inc.xsd"/>' + root, "").replace(
+            '<xs:import namespace="urn:u" schemaLocation="u.xsd"/><xs:include schemaLocation="inc.xsd"/>',
+            '<xs:include schemaLocation="inc.xsd"/><xs:import namespace="urn:u" schemaLocation="u.xsd"/>')
+        docs.append(("inc.xsd", inc))
+    else:
+        doc = sc.document(root, types)
     declared = {(2, l) for l in sc.globals_t} | {(3, 1), (3, 2), (3, 6), (3, 7)}
     stricts = strict_undeclared(p, declared)
     insts, pen = [], []
@@ -77,7 +89,7 @@ def cm_case(kind, p, words, rng, named_type=None, mixed=False, info=None):
         bad = any(q not in declared and q not in names and any(G.wild_allows(s[3], q[0]) for s in stricts) for q in w)
         pen.append(bad)
     model = "cm P %s ; %s" % (G.model_particle(p), " ; ".join(",".join(G.qtext(q) for q in w) or "-" for w in words))
-    req = G.request(model, [("main.xsd", doc), ("u.xsd", G.U_XSD)], "main.xsd", insts)
+    req = G.request(model, [("main.xsd", doc)] + docs, "main.xsd", insts)
     return {"kind": kind, "request": req, "n": len(words), "strict_penalty": pen, "particle": p, "words": words,
             "info": info or {}}
 
@@ -128,10 +140,10 @@ def schema_case(kind, doc, must_fail_full, must_fail_always, info=None):
 
 
 ATT_NAME = {(1, 1): "a", (1, 2): "b", (1, 3): "c", (3, 9): "u:ga", (4, 9): "v:zz", (2, 9): "t:tt"}
-ATT_BY_TEXT = {v: k for k, v in ATT_NAME.items()}
+ATT_BY_TEXT = {("|a"): (1, 1), "|b": (1, 2), "|c": (1, 3), "urn:u|ga": (3, 9), "urn:v|zz": (4, 9), "urn:t|tt": (2, 9)}
 
 
-def at_case(kind, uses, wild, sets):
+def at_case(kind, uses, wild, sets, via_group=False):
     """uses: list of (qname, use 'o'|'r'|'p', vc 'n'|'d'|'f', value); wild: None | (constraint, nsattr text, pc)
     sets: list of attribute sets [(qname, value)]"""
     body = ""
@@ -146,13 +158,16 @@ def at_case(kind, uses, wild, sets):
     if wild:
         c, txt, pc = wild
         body += '<xs:anyAttribute namespace="%s" processContents="%s"/>' % (txt, pc)
-        wm = "any" if c[0] == "any" else ("not %d" % c[1] if c[0] == "not" else "set %d %s" % (len(c[1]), " ".join(map(str, c[1]))))
+        wm = ("any" if c[0] == "any" else ("not %d" % c[1] if c[0] == "not" else "set %d %s" % (len(c[1]), " ".join(map(str, c[1]))))) + " " + pc
     sc = G.Schema()
     sc.uses_u = True
+    if via_group:
+        sc.extra.append('<xs:attributeGroup name="ag">%s</xs:attributeGroup>' % body)
+        body = '<xs:attributeGroup ref="t:ag"/>'
     doc = sc.document('<xs:element name="r"><xs:complexType>%s</xs:complexType></xs:element>' % body, "")
     insts = [G.instance([], attrs="".join(' %s="%s"' % (ATT_NAME[q], v) for q, v in st)) for st in sets]
     model = "at %d %s %s ; %s" % (len(uses), " ".join("%d %d %s %s %s" % (q[0], q[1], use, vc, G.hx(val)) for q, use, vc, val in uses),
-                                  wm, " ; ".join(",".join("%d:%d=%s" % (q[0], q[1], G.hx(v)) for q, v in st) or "-" for st in sets))
+                                  wm + " 3:9", " ; ".join(",".join("%d:%d=%s" % (q[0], q[1], G.hx(v)) for q, v in st) or "-" for st in sets))
     req = G.request(model, [("main.xsd", doc), ("u.xsd", G.U_XSD)], "main.xsd", insts)
     return {"kind": kind, "request": req, "n": len(sets), "attr": True, "strict_penalty": [False] * len(sets),
             "info": {"uses": uses, "wild": wild}}
@@ -164,6 +179,19 @@ def feature_case(kind, doc, model_particle_text, items, info=None):
     req = G.request(model, [("main.xsd", doc), ("u.xsd", G.U_XSD)], "main.xsd", [t for t, _, _ in items])
     return {"kind": kind, "request": req, "n": len(items), "strict_penalty": [f for _, _, f in items],
             "words": [w for _, w, _ in items], "info": info or {}}
+
+def shared_name_counting(p):
+    """two leaves with the same name (or two wildcards) in one content model, at least one of them with an occurrence
+    range that is not one of 1..1, 0..1, 0..inf, 1..inf (so that the compact counting form may be used)"""
+    ls = G.leaves(p)
+    plain = {(1, 1), (0, 1), (0, -1), (1, -1)}
+    for i in range(len(ls)):
+        for j in range(i + 1, len(ls)):
+            same = (ls[i][0] == ls[j][0] == "E" and tuple(ls[i][3]) == tuple(ls[j][3])) or (ls[i][0] == ls[j][0] == "W")
+            if same and ((ls[i][1], ls[i][2]) not in plain or (ls[j][1], ls[j][2]) not in plain):
+                return True
+    return False
+
 
 def has_max0(p):
     if p[1] == 0 and p[2] == 0:
@@ -200,6 +228,12 @@ def gen_cases(ctx):
     cases.append(cm_case("witness-C08-emptychoice-empty-in-choice", p, [[], [a], [a, a]], rng))
     p = ("S", 1, 1, [("W", 1, 1, ("set", []), "", "skip")], "inline")
     cases.append(cm_case("witness-C08-emptyns-empty-nslist", p, [[], [e], [(4, 8)]], rng))
+    p = ("S", 1, 1, [E(2, 3, a), E(1, 1, b), E(1, 2, a)], "inline")
+    cases.append(cm_case("witness-counting-shared-name", p, [[a, a, b, a], [a, a, b, a, a, a], [a, a, b, a, a]], rng))
+    cases.append(at_case("witness-prohibited-wildcard", [((1, 1), "p", "n", "")], (("set", [1]), "##local", "skip"),
+                         [[], [((1, 1), "x")], [((1, 2), "y")]]))
+    p = ("S", 1, 1, [("W", 0, 0, ("not", 2), "##other", "skip"), E(1, 1, b)], "inline")
+    cases.append(cm_case("wildcard-max0-control", p, [[b], [(3, 6), b], [], [(3, 6)]], rng))
     # ---- 1. occurrence boundaries of single leaves and of small groups, exhaustive ---------------------------
     occs = G.OCCS + [(0, 4), (5, 5), (3, 5), (1, 4), (5, -1)]
     for (m, n) in occs:
@@ -218,6 +252,22 @@ def gen_cases(ctx):
         wild = ("W", m, n, ("not", 2), "##other", "lax")
         wk = [[(3, 6)] * k for k in range(0, top + 1)]
         cases.append(cm_case("occ-wild", ("S", 1, 1, [wild, E(0, 1, a)], "inline"), wk + [w + [a] for w in wk] + [[e]], rng))
+    # ---- 1b. names used by two particles of one content model, separated so that UPA holds (counting states) -----
+    oth = lambda m, n: ("W", m, n, ("not", 2), "##other", "skip")
+    reps = [("S", 1, 1, [E(2, 3, a), E(1, 1, b), E(1, 2, a)], "inline"),
+            ("S", 1, 1, [E(2, 2, a), E(0, 1, b), E(1, 1, c), E(1, 3, a)], "inline"),
+            ("C", 1, 1, [("S", 1, 1, [E(1, 1, a), E(1, 1, b)], "inline"), ("S", 1, 1, [E(1, 1, c), E(2, 2, a)], "inline")], "inline"),
+            ("S", 1, 1, [("C", 2, 4, [E(1, 1, a), E(1, 1, b)], "inline"), E(1, 1, c), E(0, 2, a)], "inline"),
+            ("S", 0, 2, [E(3, 3, a), E(1, 1, b), E(0, 1, a), E(1, 1, c)], "inline"),
+            ("S", 1, 1, [E(2, -1, a), E(1, 1, b), E(3, -1, a), E(1, 1, c, "ref")], "inline"),
+            ("S", 1, 1, [oth(2, 3), E(1, 1, a), oth(0, 2)], "inline"),
+            ("S", 1, 2, [E(1, 1, a), oth(1, 2), E(1, 1, b), oth(2, 2)], "inline")]
+    for p in reps:
+        if any(l[0] == "W" for l in G.leaves(p)):
+            al = [a, b, (3, 6)]
+        else:
+            al = [a, b, c]
+        cases.append(cm_case("repeated-name-upa-valid", p, G.exhaustive(al, 7 if thorough else 6, 1100 if not thorough else 4000), rng))
     # ---- 2. random deterministic particles: exhaustive short child sequences + boundary samples --------------
     nrand = 110 if not thorough else 2500
     for i in range(nrand):
@@ -239,7 +289,7 @@ def gen_cases(ctx):
                 w = G.sample_word(p, rng, pool, mutate_at=(node, delta))
                 if w is not None and len(w) <= 16 and tuple(w) not in seen:
                     seen.add(tuple(w)); words.append(w)
-        cases.append(cm_case("random-particle", p, words, rng, named_type=rng.random() < 0.5,
+        cases.append(cm_case("random-particle", p, words, rng, named_type=rng.choice([None, None, True, "include"]),
                              mixed=rng.random() < 0.15))
     # ---- 3. all-groups --------------------------------------------------------------------------------------
     members_pool = [a, b, c, (1, 1)]
@@ -292,7 +342,7 @@ def gen_cases(ctx):
     cases.append(schema_case("schema-edc-inconsistent", S(rt("<xs:sequence>%s<xs:element name=\"b\" type=\"xs:string\"/><xs:element name=\"a\" type=\"xs:int\"/></xs:sequence>" % el("a"))), True, False))
     # ---- 6. attribute uses --------------------------------------------------------------------------------
     import itertools
-    aw = [None, (("not", 2), "##other", "skip"), (("set", [1]), "##local", "lax"), (("any",), "##any", "skip"),
+    aw = [None, (("set", [4, 3]), "urn:v urn:u", "strict"), (("not", 2), "##other", "skip"), (("set", [1]), "##local", "lax"), (("any",), "##any", "skip"),
           (("set", [3]), "urn:u", "strict"), (("set", [4, 1]), "urn:v ##local", "skip")]
     natt = 36 if not thorough else 400
     for i in range(natt):
@@ -315,7 +365,7 @@ def gen_cases(ctx):
         if not thorough:
             rng.shuffle(sets)
             sets = sets[:70]
-        cases.append(at_case("attribute-uses", uses, wild, sets))
+        cases.append(at_case("attribute-uses", uses, wild, sets, via_group=(i % 3 == 2)))
     # ---- 7. substitution groups, abstract / block, xsi:type, xsi:nil, mixed / empty / simple content ---------
     HDR = ('<xs:schema xmlns:xs="%s" xmlns:t="urn:t" xmlns:u="urn:u" targetNamespace="urn:t" '
            'elementFormDefault="qualified"><xs:import namespace="urn:u" schemaLocation="u.xsd"/>' % G.XSD)
@@ -354,6 +404,29 @@ def gen_cases(ctx):
                                   [(G.instance(w, rootattrs=' xsi:type="t:T2"'), w, ext_forced) for w in words]))
         cases.append(feature_case("xsitype-%s-unrelated" % variant, doc, "S 1 1 1 E 1 1 2 1",
                                   [(G.instance(w, rootattrs=' xsi:type="t:T3"'), w, True) for w in words[:8]]))
+    # derivation by restriction: declared base type, xsi:type naming the restricted type, and the restricted type itself
+    doc = (HDR + '<xs:element name="r" type="t:B"/><xs:element name="r2" type="t:R"/>'
+           '<xs:complexType name="B"><xs:sequence><xs:element name="a" type="xs:string" minOccurs="0" maxOccurs="3"/>'
+           '<xs:element name="b" type="xs:string" minOccurs="0"/></xs:sequence><xs:attribute name="p" type="xs:string"/></xs:complexType>'
+           '<xs:complexType name="R"><xs:complexContent><xs:restriction base="t:B"><xs:sequence>'
+           '<xs:element name="a" type="xs:string" minOccurs="1" maxOccurs="2"/></xs:sequence></xs:restriction></xs:complexContent></xs:complexType>'
+           '</xs:schema>')
+    words = G.exhaustive([a, b], 4, 100)
+    cases.append(feature_case("restriction-base", doc, "S 1 1 2 E 0 3 2 1 E 0 1 2 2", [(G.instance(w), w, False) for w in words]))
+    cases.append(feature_case("restriction-xsitype", doc, "S 1 1 1 E 1 2 2 1",
+                              [(G.instance(w, rootattrs=' xsi:type="t:R"'), w, False) for w in words]))
+    cases.append(feature_case("restriction-declared", doc, "S 1 1 1 E 1 2 2 1",
+                              [(G.instance(w, root="t:r2"), w, False) for w in words]))
+    # element default / fixed value constraints: reported content of empty children
+    doc = (HDR + '<xs:element name="r"><xs:complexType><xs:sequence><xs:element name="a" type="xs:string" default="dv" minOccurs="0"/>'
+           '<xs:element name="b" type="xs:string" fixed="fv" minOccurs="0"/><xs:element name="c" type="xs:string" minOccurs="0"/>'
+           '</xs:sequence></xs:complexType></xs:element></xs:schema>')
+    items = [('<t:a/><t:b/><t:c/>', [a, b, c], False, "a=dv,b=fv,c="), ('<t:a>x</t:a><t:b>fv</t:b>', [a, b], False, "a=x,b=fv"),
+             ('<t:a></t:a>', [a], False, "a=dv"), ('<t:b>zz</t:b>', [b], True, None), ('<t:a/><t:c>q</t:c>', [a, c], False, "a=dv,c=q")]
+    fc = feature_case("element-default-fixed", doc, "S 1 1 3 E 0 1 2 1 E 0 1 2 2 E 0 1 2 3",
+                      [(G.instance([t]), w, f) for t, w, f, _ in items])
+    fc["expect_kids"] = [x[3] for x in items]
+    cases.append(fc)
     # xsi:nil
     for nillable in (True, False):
         doc = (HDR + '<xs:element name="r" nillable="%s"><xs:complexType><xs:sequence><xs:element name="a" type="xs:string" '
@@ -361,9 +434,11 @@ def gen_cases(ctx):
         words = G.exhaustive([a], 3, 10)
         cases.append(feature_case("xsinil-%s-true" % nillable, doc, "S 1 1 0",
                                   [(G.instance(w, rootattrs=' xsi:nil="true"'), w, not nillable) for w in words]
-                                  + [(G.instance([], rootattrs=' xsi:nil="true"').replace("></t:r>", "> </t:r>"), [], True)]))
+                                  + [(G.instance([], rootattrs=' xsi:nil="true"').replace("></t:r>", ">x</t:r>"), [], True)]))
+        # 3.3.4 clause 3.1: a non-nillable element must not carry xsi:nil at all (even "false")
         cases.append(feature_case("xsinil-%s-false" % nillable, doc, "S 1 1 1 E 0 2 2 1",
-                                  [(G.instance(w, rootattrs=' xsi:nil="false"'), w, False) for w in words]))
+                                  [(G.instance(w, rootattrs=' xsi:nil="false"'), w, not nillable) for w in words],
+                                  info={"nilfalse": nillable}))
     # element-only / mixed / empty / simple content and character data
     for mixed in (False, True):
         doc = (HDR + '<xs:element name="r"><xs:complexType mixed="%s"><xs:sequence><xs:element name="a" type="xs:string" '
@@ -406,7 +481,12 @@ def parse_impl(line):
             rs = [x.split("@") for x in t[4:-1].split(";")]
             verdicts = {x[0] == "ok" for x in rs}
             rest = {tuple(x[1:]) for x in rs}
-            if len(verdicts) == 1 and len(rest) == 1:
+            offv = {x[0] == "ok" for x in rs[:4]}
+            onv = {x[0] == "ok" for x in rs[4:]}
+            if len(verdicts) == 2 and len(offv) == 1 and len(onv) == 1 and len(rest) == 1:
+                # schema-full-checking off and on give different verdicts (each consistently over scanners and APIs)
+                out.append((rs[4][0], rs[4][1] if len(rs[4]) > 1 else "", rs[4][2] if len(rs[4]) > 2 else "", t, rs[0][0]))
+            elif len(verdicts) == 1 and len(rest) == 1:
                 longest = max(rs, key=lambda x: len(x[0]))
                 out.append((longest[0], longest[1] if len(longest) > 1 else "", longest[2] if len(longest) > 2 else "", t))
             else:
@@ -441,7 +521,8 @@ def run(ctx):
         cases = [{"kind": r.get("kind", "replay"), "request": r["request"], "n": r.get("n", 0),
                   "strict_penalty": r.get("strict_penalty", [False] * r.get("n", 0)),
                   "schema_expect": tuple(r["schema_expect"]) if r.get("schema_expect") else None,
-                  "info": r.get("info", {}), "particle": r.get("particle"), "words": r.get("words")}]
+                  "info": r.get("info", {}), "particle": r.get("particle"), "words": r.get("words"),
+                  "attr": r.get("attr"), "expect_kids": r.get("expect_kids")}]
     else:
         cases = gen_cases(ctx)
     lines = [c["request"] for c in cases]
@@ -459,7 +540,8 @@ def run(ctx):
     kinds, codes_seen = {}, {}
     n_valid = n_invalid = 0
     divergences, shared, dis = [], [], []
-    known = {"C08-max0": 0, "C08-emptychoice": 0, "C08-emptyns": 0}
+    known = {"C08-max0": 0, "C08-emptychoice": 0, "C08-emptyns": 0, "C08-prohibited": 0, "C08-nilfalse": 0, "C08-counting": 0, "C08-nilchildren": 0}
+    prohibited_code = [k for k, v in names["V"].items() if v == "ProhibitedAttributePresent"][0]
     nviol = 0
     code_dis = [0]
 
@@ -474,7 +556,8 @@ def run(ctx):
         s0, s1, res = parse_impl(il)
         base = {"kind": case["kind"], "request": case["request"], "n": case["n"], "info": case.get("info"),
                 "strict_penalty": case.get("strict_penalty"), "schema_expect": case.get("schema_expect"),
-                "particle": case.get("particle"), "impl": il[:2000], "model": ml[:2000]}
+                "particle": case.get("particle"), "attr": case.get("attr"), "words": case.get("words"), "expect_kids": case.get("expect_kids"),
+                "impl": il[:2000], "model": ml[:2000]}
         if case.get("schema_expect") is not None:
             ctx.count()
             always, full = case["schema_expect"]
@@ -501,7 +584,19 @@ def run(ctx):
         for k in range(case["n"]):
             ctx.count()
             codes, attrs, kids = res[k][:3]
-            if len(res[k]) > 3:
+            off_codes = res[k][4] if len(res[k]) > 4 else None
+            if off_codes is not None:
+                # full checking off disagrees with full checking on
+                sv_ = mt[k][1] in "V1" and not case["strict_penalty"][k]
+                p_ = case.get("particle")
+                if p_ is not None and shared_name_counting(tuple_ify(p_)) and (codes == "ok") == sv_ \
+                        and ctx.find_known("C08-counting"):
+                    known["C08-counting"] += 1
+                else:
+                    viol("divergence", dict(base, what="schema-full-checking off and on disagree on one instance",
+                                            instance=k, detail=res[k][3][:600]))
+                    continue
+            elif len(res[k]) > 3:
                 code_dis[0] += 1
                 if len(code_dis) < 4:
                     code_dis.append(res[k][3][:300])
@@ -513,8 +608,10 @@ def run(ctx):
             iv = codes == "ok"
             if case.get("attr"):
                 # attribute uses: the oracle is the extracted Spec (attrs_valid / defaulted); no separate model
-                sv = mt[k][0] == "V"
-                want = sorted(x for x in mt[k][2:].split(",") if x)
+                mv, sv = mt[k][0] == "V", mt[k][1] == "V"
+                mparts = mt[k].split("@")
+                mwant = sorted(x for x in mparts[1].split(",") if x)
+                want = sorted(x for x in mparts[2].split(",") if x)
                 got = []
                 for x in attrs.split(","):
                     if x:
@@ -528,6 +625,22 @@ def run(ctx):
                 n_valid, n_invalid = n_valid + (1 if iv else 0), n_invalid + (0 if iv else 1)
                 if not iv or len(want) > 0:
                     ctx.distinct((case["request"][:200], k))
+                if iv != mv or (iv and got != mwant):
+                    if iv == sv and (not iv or got == want):
+                        viol("correspondence", dict(base, instance=k, impl_valid=iv, model_valid=mv, spec_valid=sv, codes=codes,
+                                                    attrs=attrs, model=mt[k], what="attribute model differs from the "
+                                                    "implementation although the implementation satisfies the Spec"), no_input=True)
+                        continue
+                if sv and not iv and set(codes.split(",")) == {"V%d" % prohibited_code}:
+                    # attributable to C08-prohibited: a prohibited attribute is present and the attribute wildcard
+                    # allows its namespace
+                    uses, wild = case["info"]["uses"], case["info"]["wild"]
+                    present = set(x.partition("=")[0] for x in attrs.split(",") if x)
+                    hit = [u for u in uses if u[1] == "p" and wild and G.wild_allows(tuple(wild[0]) if wild[0][0] != "set" else ("set", list(wild[0][1])), u[0][0])
+                           and any(ATT_BY_TEXT.get(nm) == tuple(u[0]) for nm in present)]
+                    if hit and ctx.find_known("C08-prohibited"):
+                        known["C08-prohibited"] += 1
+                        continue
                 if iv != sv:
                     viol("divergence", dict(base, instance=k, impl_valid=iv, spec_valid=sv, codes=codes, attrs=attrs,
                                             spec=mt[k], what="attribute-use verdict differs from the Spec (attrs_valid)"))
@@ -551,6 +664,10 @@ def run(ctx):
             if mv or not iv:
                 ctx.distinct((case["request"][:200], k))
             if iv == mv_eff and mv_eff == sv_eff:
+                ek = case.get("expect_kids")
+                if iv and ek and ek[k] is not None and kids != ek[k]:
+                    viol("divergence", dict(base, instance=k, what="reported element content (default / fixed value) differs "
+                                            "from the governing declaration", got=kids, want=ek[k]))
                 continue
             word = case.get("words")[k] if case.get("words") else None
             d = dict(base, instance=k, word=word, impl_valid=iv, model_valid=mv_eff, spec_valid=sv_eff, codes=codes)
@@ -567,7 +684,16 @@ def run(ctx):
         ctx.sample({"kind": c["kind"], "request": c["request"][:600], "impl": il[:300], "model": ml[:300]})
     # impl != model: decide with the Spec
     unexplained = []
+    nil_code = "V%d" % [k for k, v in names["V"].items() if v == "NillNotAllowed"][0]
     for d in divergences:
+        if (d["info"] or {}).get("nilfalse") and d["word"] and not d["impl_valid"] and d["spec_valid"] \
+                and set(d["codes"].split(",")) == {nil_code} and ctx.find_known("C08-nilfalse"):
+            known["C08-nilfalse"] += 1
+            continue
+        if d["kind"] == "xsinil-True-true" and d["word"] and len(d["word"]) <= 2 and d["impl_valid"] and not d["spec_valid"] \
+                and ctx.find_known("C08-nilchildren"):
+            known["C08-nilchildren"] += 1
+            continue
         if d["impl_valid"] != d["spec_valid"]:
             viol("divergence", dict(d, what="implementation differs from the model and violates the Spec (pmatch = Lp)"))
         else:
@@ -598,7 +724,19 @@ def run(ctx):
                     "(witness (a{0,0}, b) accepts <a/><b/>)",
              "C08-emptychoice": "an empty model group inside a <choice> is dropped, so the choice no longer accepts the empty "
                     "sequence (witness choice(a, sequence()) rejects empty content)",
-             "C08-emptyns": "<any namespace=\"\"> (empty list = no namespace allowed) is read as ##any"}
+             "C08-emptyns": "<any namespace=\"\"> (empty list = no namespace allowed) is read as ##any",
+             "C08-nilfalse": "xsi:nil=\"false\" on a nillable element makes its (non-nillable) child elements fail with "
+                             "NillNotAllowed: SchemaValidator::fNilFound is not cleared once the element that carried "
+                             "xsi:nil has been checked (proposed repair: fixes/C08-nil-false-child.patch)",
+             "C08-counting": "with schema-full-checking off, two particles with the same element name in one content model "
+                             "share one counting state (Occurence is keyed by the element-map entry, i.e. by name): "
+                             "(a{2,3}, b, a{1,2}) rejects <a/><a/><b/><a/> and accepts <a/><a/><b/><a/><a/><a/>; with full "
+                             "checking on (leaves renamed for the UPA check) the verdicts are right",
+             "C08-nilchildren": "an element with xsi:nil=\"true\" and element children is accepted when the children fit the "
+                                "content model: SchemaValidator::fNil is one flag for all open elements and is cleared when a "
+                                "child element ends (proposed repair: fixes/C08-nil-children.patch)",
+             "C08-prohibited": "an attribute declared with use=prohibited (which corresponds to no attribute use at all) is "
+                               "rejected with ProhibitedAttributePresent even when the type's attribute wildcard allows it"}
     for fid, nhit in known.items():
         if nhit:
             ctx.known_finding(fid, "%s; %d instances of this class" % (texts[fid], nhit))
